@@ -172,7 +172,7 @@ func genDocs(r *Rng, maxNodes int) []DocSpec {
 		switch {
 		case r.Chance(1, 14):
 			ds = append(ds, GenWideDoc(r)) // size stratum: one very wide level
-		case r.Chance(1, 14):
+		case r.Chance(1, 10):
 			ds = append(ds, GenDeepDoc(r)) // size stratum: a deep chain
 		default:
 			ds = append(ds, GenDoc(r, maxNodes))
